@@ -76,6 +76,16 @@ def _structure_job(args):
                 T[i, j] = 0
         measure(rec, "triangular", {"A": T.tolist()}, T)
         measure(rec, "hermitian", {"A": (G + oherm(G)).tolist()}, G + oherm(G), trace=float(2 * sum(G[i, i, 0] for i in range(n))))
+        if n >= 3:
+            # nearly (but not) Hermitian: a unitary similarity must keep the non-Hermitian part
+            Hn = (G + oherm(G)) * 1.0
+            Hn[0, n - 1] += np.array([0.0, 3e-7, -2e-7, 1e-7]) * float(np.max(np.abs(Hn)))
+            measure(rec, "nearly-hermitian", {"A": Hn.tolist()}, Hn)
+            Hf = rng.standard_normal((n, n, 4))
+            Hf = Hf + oherm(Hf)
+            lowtri = np.tril(np.ones((n, n)), -1)[:, :, None]
+            Hf32 = Hf * (1 - lowtri) + Hf.astype(np.float32).astype(np.float64) * lowtri   # one triangle rounded to float32
+            measure(rec, "nearly-hermitian", {"A": Hf32.tolist(), "how": "lower triangle rounded to float32"}, Hf32)
         Z = G.copy()
         Z[:, 0] = 0
         measure(rec, "zero-column", {"A": Z.tolist()}, Z)
